@@ -1,0 +1,10 @@
+//go:build verif
+
+package splunk
+
+import "github.com/ozontech/file.d/pipeline"
+
+// Exported wrappers for the verification harness (C19): the batch payload builder.
+
+// VerifOut calls the unexported out() with the given worker data.
+func (p *Plugin) VerifOut(wd *pipeline.WorkerData, b *pipeline.Batch) error { return p.out(wd, b) }
